@@ -158,9 +158,23 @@ impl EventGen for ReuseElement {
         // TODO: This isn't ideal. resolve_position() is needed to handle
         // relpos positioning (`xy="#a|h"` etc), but the Position-based
         // stuff fully handles other positioning. Should be unified.
+        // (placed next to something, it is the size of this instance which counts - not
+        // that of the template where it is written, if it has one there at all)
+        let sized_here = match (instance_size, reuse_element.has_attr("width")) {
+            (Some(size), false) if !reuse_element.has_attr("height") => {
+                let (width, height) = size.as_wh();
+                reuse_element.set_attr("width", &fstr(width));
+                reuse_element.set_attr("height", &fstr(height));
+                true
+            }
+            _ => false,
+        };
         reuse_element.resolve_position(context).inspect_err(|_| {
             context.pop_element();
         })?;
+        if sized_here {
+            reuse_element.remove_attrs(&["width", "height"]);
+        }
 
         // (a place which is not in user units - x="1cm", x="10%" - can't be worked on: it
         // is the instance's as it is written, where the instance can have one)
